@@ -95,7 +95,15 @@ VARIANTS = [
     V("c10-reset-len", ["C10"], "break", R, "            self._cache_gen = self._iter()\n\n        self._len = None", "            self._cache_gen = self._iter()\n", ["C10.RESET"]),
     V("c10-ne-eq", ["C10"], "break", R, "        def __ne__(self, other):\n            return self.dt != other.dt", "        def __ne__(self, other):\n            return self.dt == other.dt", ["C10.CMP"]),
     V("c10-ne-not-eq", ["C10"], "benign", R, "        def __ne__(self, other):\n            return self.dt != other.dt", "        def __ne__(self, other):\n            return not (self.dt == other.dt)", []),
-    V("c11-break-skips-release", ["C11"], "break", R, "                try:\n                    if self._cache_complete:\n                        break\n                    try:", "                if self._cache_complete:\n                    break\n                try:\n                    try:", ["C11.PAIR", "C11.NOYIELD"]),
+    V("c11-break-skips-release", ["C11"], "break", R, "                try:\n                    # The cache was replaced if the set changed meanwhile\n                    current = cache is self._cache\n                    if current and self._cache_complete:\n                        break\n                    try:", "                current = cache is self._cache\n                if current and self._cache_complete:\n                    break\n                try:\n                    try:", ["C11.PAIR", "C11.NOYIELD"]),
+    V("c11-genfail-handler-removed", ["C11"], "break", R, "                    except Exception:\n                        # A generator that raised is finished for good and\n                        # would read as an exhausted rule: start it over\n                        if current:\n                            self._cache = []\n                            self._cache_gen = self._iter()\n                        raise\n", "", ["C11.GENFAIL"]),
+    V("c11-genfail-handler-baseexception", ["C11"], "benign", R, "                    except Exception:\n                        # A generator that raised is finished for good and", "                    except BaseException:\n                        # A generator that raised is finished for good and", []),
+    V("c11-lookahead-parked", ["C11"], "break", R, "                        for j in range(10):\n                            cache.append(advance_iterator(gen))\n", "                        for j in range(10):\n                            cache.append(advance_iterator(gen))\n                        ahead = [advance_iterator(gen)]\n", ["C11.CONSERVE"]),
+    V("c13-year-strftime", ["C13"], "break", R, "            parts.append('UNTIL=%04d' % self._until.year +\n                         self._until.strftime('%m%dT%H%M%S'))", "            parts.append(self._until.strftime('UNTIL=%Y%m%dT%H%M%S'))", ["C13.YEARPAD"]),
+    V("c13-year-format", ["C13"], "benign", R, "            parts.append('UNTIL=%04d' % self._until.year +\n                         self._until.strftime('%m%dT%H%M%S'))", "            parts.append('UNTIL={:04d}'.format(self._until.year) +\n                         self._until.strftime('%m%dT%H%M%S'))", []),
+    V("c13-tzid-runs-across-semicolon", ["C13"], "break", R, "'TZID=(?P<name>[^:;]+)[:;]'", "'TZID=(?P<name>[^:]+):'", ["C13.TZID"]),
+    V("c18-key-truncated", ["C18"], "break", FAC, "            key = (name, offset.total_seconds())", "            key = (name, int(offset.total_seconds()))", ["C18.KEYINJ"]),
+    V("c18-key-drops-argument", ["C18"], "break", FAC, "        key = (s, posix_offset)", "        key = (s,)", ["C18.KEYINJ"]),
     V("c12-before-gt", ["C12"], "break", R, "            for i in gen:\n                if i >= dt:\n                    break\n                last = i\n        return last", "            for i in gen:\n                if i > dt:\n                    break\n                last = i\n        return last", ["C12.CMP"]),
     V("c12-before-not-lt", ["C12"], "benign", R, "            for i in gen:\n                if i >= dt:\n                    break\n                last = i\n        return last", "            for i in gen:\n                if not (i < dt):\n                    break\n                last = i\n        return last", []),
     V("c12-replace-byeaster", ["C12"], "break", R, "            self._original_rule['byeaster'] = self._byeaster\n", "", ["C12.REPLACE"]),
